@@ -33,7 +33,7 @@ class Builtins:
         ks = z3.simplify(k)
         if z3.is_int_value(ks) and 0 <= ks.as_long() <= POW2_TABLE_MAX:
             return I(2 ** ks.as_long())
-        return self._pow2(k)
+        return self._pow2(ks)        # always the simplified exponent: one canonical term per exponent
 
     # ---- division / modulus / product by a symbolic power of two -----------------------------------------
     # Kept opaque (uninterpreted pdiv/pmod/pmul over the divisor term) so that the solver does not start nonlinear
